@@ -277,6 +277,8 @@ def eq(a, b):
             return bool(a == b)
         except Exception:
             raise Unsupported("== on %r %r" % (a, b))
+    if getattr(a, "kind", None) == "type" or getattr(b, "kind", None) == "type":
+        return type_identical(a, b)
     if isinstance(a, SVal) or isinstance(b, SVal):
         if isinstance(a, SVal) and isinstance(b, SVal):
             return val_eq(a.z, b.z)
@@ -294,6 +296,12 @@ def eq(a, b):
         return z3.And([_z(eq(x, y)) for x, y in zip(a, b)]) if a else True
     if isinstance(a, SF64) and isinstance(b, SF64):
         raise Unsupported("float ==")
+    if isinstance(a, Sym) and isinstance(b, Sym) and a.kind in ("vl", "fset") and b.kind in ("vl", "fset"):
+        return a.z == b.z
+    if isinstance(a, Sym) and a.kind == "vl" and isinstance(b, tuple):
+        return a.z == to_vl(b)
+    if isinstance(b, Sym) and b.kind == "vl" and isinstance(a, tuple):
+        return b.z == to_vl(a)
     if hasattr(a, "oid_term") and hasattr(b, "oid_term"):
         return a.oid_term() == b.oid_term()
     # values of different kinds are unequal (int vs bytes, None vs int, ...)
@@ -348,8 +356,19 @@ def compare(op, a, b):
 SINGLETONS = (None, True, False, NotImplemented, Ellipsis)
 
 
+def type_identical(a, b):
+    """identity of two type objects, at least one of them the symbolic type(x) of a dynamic value"""
+    ta = a.z if getattr(a, "kind", None) == "type" else (z3.IntVal(type_id(a)) if isinstance(a, type) else None)
+    tb = b.z if getattr(b, "kind", None) == "type" else (z3.IntVal(type_id(b)) if isinstance(b, type) else None)
+    if ta is None or tb is None:
+        return False
+    return ta == tb
+
+
 def identical(a, b):
     """Python `is` for the cases the subset allows: singletons, classes, heap objects"""
+    if getattr(a, "kind", None) == "type" or getattr(b, "kind", None) == "type":
+        return type_identical(a, b)
     if not is_sym(a) and not is_sym(b):
         if hasattr(a, "oid_term") and hasattr(b, "oid_term"):
             return z3.simplify(a.oid_term() == b.oid_term())
